@@ -43,6 +43,14 @@ def check(repo: Repo, R) -> None:
     R.run(no_value_memo, repo, R, "C13.7-no-memoisation-by-value")
     R.run(ideal_primitives, repo, R, "C13.5-ideal-primitives-agree-with-reader")
     R.run(to_scalar_shape, repo, R)
+    # the documented renaming of the pulse source's parameters, each under its own name — the table shared with the importer
+    from . import c11 as _c11
+    R.run(_c11.inverse_tables, repo, shared.Retag(R, lambda r, k: "C13.5-ideal-primitives-agree-with-reader" if "export_primitive_params" in k else None,
+                                                 "a pulse source's fall time is exported as its rise time (or under another VLSIR name): the instance carries a value that was not given for that parameter"))
+    # parameter dictionaries are built from the live parameter object on every export: nothing about an earlier one is kept
+    st_ = shared.cross_call_state(repo.file(F_EXPORT).tree)
+    R.check(not st_, "C13.7-no-memoisation-by-value", f"{F_EXPORT}::state", F_EXPORT, f"{F_EXPORT} remembers nothing from one export to the next" if not st_ else f"state kept between exports: {st_}",
+            why="a dictionary remembered under the id() of a parameter object is handed out for the next object allocated at that address: an instance is exported with another instance's parameter values")
     R.floor("C13.1-value-dispatch", 8)
     R.floor("C13.4-no-float-detour", 5)
     R.floor("C13.5-ideal-primitives-agree-with-reader", 11)
